@@ -11,9 +11,9 @@ extern "C" void harness_c12_eval()
     Gen g;
     g.leaves = {L_NUM, L_SYMNUM};
     g.nums = {{2, 1}, {-1, 2}, {3, 1}, {7, 3}};
-    // (exp is left out: exp(u) is stored as E**u, which one evaluator computes with exp() and the other with pow(E, u) --
-    //  equal up to rounding only, which the real abstraction cannot express)
-    g.unary = {O_NEG, O_POWI, O_SIN, O_COS, O_TAN, O_LOG, O_SINH, O_COSH, O_TANH, O_ATAN, O_ASIN, O_ERF, O_COT};
+    // (exp(u) is stored as E**u, which one evaluator computes with exp() and the other with pow(M_E, u): at formula level the
+    //  engine reads pow(M_E, u) as exp(u))
+    g.unary = {O_NEG, O_POWI, O_EXP, O_SIN, O_COS, O_TAN, O_LOG, O_SINH, O_COSH, O_TANH, O_ATAN, O_ASIN, O_ERF, O_COT};
     g.binary = {O_ADD, O_SUB, O_MUL, O_DIV};
     g.ipows = {2, 3, -1, -2};
     g.symB = verif_param("symB", 3);
